@@ -49,31 +49,28 @@ Fixpoint list_eqb {A} (eqb : A -> A -> bool) (a b : list A) : bool :=
 Definition bytes_eqb : list byte -> list byte -> bool := list_eqb N.eqb.
 Definition eq_nocase (a b : list byte) : bool := list_eqb (fun x y => lower x =? lower y) a b.
 
-(* RFC 3629 UTF-8 validity: what core::str::from_utf8 accepts. *)
+(* RFC 3629 UTF-8 validity (what core::str::from_utf8 accepts), as a byte-at-a-time automaton. *)
+Inductive u8st := U0 | U1 | U2 | U3 | UE0 | UED | UF0 | UF4 | UBad.
 Definition is_cont (c : byte) : bool := (128 <=? c) && (c <=? 191).
-Fixpoint utf8_valid_aux (fuel : nat) (l : list byte) : bool :=
-  match fuel with
-  | O => match l with [] => true | _ => false end
-  | S f =>
-    match l with
-    | [] => true
-    | c :: r =>
-      if c <=? 127 then utf8_valid_aux f r
-      else if (194 <=? c) && (c <=? 223) then
-        match r with c1 :: r' => is_cont c1 && utf8_valid_aux f r' | _ => false end
-      else if c =? 224 then
-        match r with c1 :: c2 :: r' => (160 <=? c1) && (c1 <=? 191) && is_cont c2 && utf8_valid_aux f r' | _ => false end
-      else if ((225 <=? c) && (c <=? 236)) || ((238 <=? c) && (c <=? 239)) then
-        match r with c1 :: c2 :: r' => is_cont c1 && is_cont c2 && utf8_valid_aux f r' | _ => false end
-      else if c =? 237 then
-        match r with c1 :: c2 :: r' => (128 <=? c1) && (c1 <=? 159) && is_cont c2 && utf8_valid_aux f r' | _ => false end
-      else if c =? 240 then
-        match r with c1 :: c2 :: c3 :: r' => (144 <=? c1) && (c1 <=? 191) && is_cont c2 && is_cont c3 && utf8_valid_aux f r' | _ => false end
-      else if (241 <=? c) && (c <=? 243) then
-        match r with c1 :: c2 :: c3 :: r' => is_cont c1 && is_cont c2 && is_cont c3 && utf8_valid_aux f r' | _ => false end
-      else if c =? 244 then
-        match r with c1 :: c2 :: c3 :: r' => (128 <=? c1) && (c1 <=? 143) && is_cont c2 && is_cont c3 && utf8_valid_aux f r' | _ => false end
-      else false
-    end
+Definition utf8_step (q : u8st) (c : byte) : u8st :=
+  match q with
+  | U0 => if c <=? 127 then U0
+          else if (194 <=? c) && (c <=? 223) then U1
+          else if c =? 224 then UE0
+          else if ((225 <=? c) && (c <=? 236)) || ((238 <=? c) && (c <=? 239)) then U2
+          else if c =? 237 then UED
+          else if c =? 240 then UF0
+          else if (241 <=? c) && (c <=? 243) then U3
+          else if c =? 244 then UF4
+          else UBad
+  | U1 => if is_cont c then U0 else UBad
+  | U2 => if is_cont c then U1 else UBad
+  | U3 => if is_cont c then U2 else UBad
+  | UE0 => if (160 <=? c) && (c <=? 191) then U1 else UBad
+  | UED => if (128 <=? c) && (c <=? 159) then U1 else UBad
+  | UF0 => if (144 <=? c) && (c <=? 191) then U2 else UBad
+  | UF4 => if (128 <=? c) && (c <=? 143) then U2 else UBad
+  | UBad => UBad
   end.
-Definition utf8_valid (l : list byte) : bool := utf8_valid_aux (List.length l) l.
+Definition utf8_run (q : u8st) (l : list byte) : u8st := fold_left utf8_step l q.
+Definition utf8_valid (l : list byte) : bool := match utf8_run U0 l with U0 => true | _ => false end.
